@@ -13,7 +13,7 @@ import (
 func init() {
 	register(&propDef{
 		ID:       "C19",
-		Explain:  "Decided (structural necessary conditions): no value accumulated while ranging over a map reaches a result of path/value/client-gnmi functions unless it is sorted first or the map provably has one entry (map-order independence), and no callback runs inside such a loop; ToStrings places target then origin first only when asked and non-empty, falls back to the deprecated element list verbatim when there are no elems, and otherwise emits each element's name followed by its key values (single key: the value; several: through sortedVals, which sorts the keys before collecting values); the complete CompletePath origin table; value.Equal arm by arm: nil-safe getter and comma-ok to the same kind on the other side, false on mismatch, true only through == of the same fields (leaf-lists: length boundaries and element-wise recursion), unhandled kinds => false; FromScalar's constructible kinds are a subset of ToScalar's convertible kinds, each ToScalar arm returns its own kind's getter, both have an error default; the client query path goes through pathToString -> ygot.StringToPath, pathToString escapes exactly the separator it joins with and writes only into its own copy; no retained append on a foreign/forked base in path and client/gnmi. Round-5 addition: FromScalar stores the type-switched input or a plain Go conversion of it into the oneof wrapper - no call and no arithmetic on the way.",
+		Explain:  "Decided (structural necessary conditions): no value accumulated while ranging over a map reaches a result of path/value/client-gnmi functions unless it is sorted first or the map provably has one entry (map-order independence), and no callback runs inside such a loop; ToStrings places target then origin first only when asked and non-empty, falls back to the deprecated element list verbatim when there are no elems, and otherwise emits each element's name followed by its key values (single key: the value; several: through sortedVals, which sorts the keys before collecting values); the complete CompletePath origin table; value.Equal arm by arm: nil-safe getter and comma-ok to the same kind on the other side, false on mismatch, true only through == of the same fields (leaf-lists: length boundaries and element-wise recursion), unhandled kinds => false; FromScalar's constructible kinds are a subset of ToScalar's convertible kinds, each ToScalar arm returns its own kind's getter, both have an error default; the client query path goes through pathToString -> ygot.StringToPath, pathToString escapes exactly the separator it joins with and writes only into its own copy; no retained append on a foreign/forked base in path and client/gnmi. Round-5 addition: FromScalar stores the type-switched input or a plain Go conversion of it into the oneof wrapper - no call and no arithmetic on the way. Round-7 addition: FromScalar refuses only for an unsupported type, a string utf8.ValidString rejects, or a failed element conversion (judged on the last undecided branch of every error path, helpers included); CompletePath returns the accumulated slice itself.",
 		NotCover: "round-trip equality through ygot and the wire, float precision, UTF-8 handling inside ygot",
 		Run:      runC19,
 	})
@@ -318,6 +318,127 @@ func runC19(c *Ctx) {
 			}
 			c.Floor("C19.scalar-exact/stores", n, 10)
 		}
+	}
+	c.Rule("C19.scalar-total", "value.FromScalar refuses an input only for one of three reasons, judged on every path that returns a non-nil error by the last undecided branch before the return: no arm of the type switch matched (unsupported type), the standard validity predicate utf8.ValidString / utf8.Valid said no about a string of the input, or the conversion of an element of the input failed (the error of a call inside the conversion unit - FromScalar itself, an unexported helper, or the conversion function handed to a helper - is non-nil; the helpers that return errors are judged the same way); any other deciding test (a hand-written scan, a length or range test) refuses values the conversion is defined for")
+	if from := P.Func("value", "FromScalar"); from != nil {
+		unit := map[*ssa.Function]bool{}
+		for _, f := range scalarUnit(from) {
+			unit[f] = true
+		}
+		kinds := map[string]int{}
+		seenBad := map[token.Pos]bool{}
+		var roots []*ssa.Function
+		for _, f := range scalarUnit(from) {
+			if f.Parent() != nil && f != from {
+				continue
+			}
+			rs := f.Signature.Results()
+			if f == from || (rs.Len() > 0 && types.TypeString(rs.At(rs.Len()-1).Type(), nil) == "error") {
+				roots = append(roots, f)
+			}
+		}
+		for _, root := range roots {
+			e := &PPA{TraceBranches: true, NoAuto: true, Watch: func(ev *Ev) bool { return ev.Label == "if" }}
+			e.Run(root)
+			c.Paths += len(e.Paths)
+			c.Analysed(fnName(root))
+			if e.Overflow {
+				c.Unknown("C19.scalar-total", fnName(root), "error paths", "", "path overflow")
+			}
+			isTypeTest := func(v ssa.Value) bool {
+				ex, ok := v.(*ssa.Extract)
+				if !ok || ex.Index != 1 {
+					return false
+				}
+				_, ok = ex.Tuple.(*ssa.TypeAssert)
+				return ok
+			}
+			for i := range e.Paths {
+				p := &e.Paths[i]
+				if p.End != "return" || len(p.Rets) == 0 || isNilConst(p.Rets[len(p.Rets)-1].V) {
+					continue
+				}
+				var last *Ev
+				armTaken := false
+				for j := range p.Trace {
+					ev := &p.Trace[j]
+					if ev.Label != "if" || len(ev.Args) == 0 {
+						continue
+					}
+					if isTypeTest(ev.Args[0].V) && ev.Taken {
+						armTaken = true
+					}
+					if !ev.Folded {
+						last = ev
+					}
+				}
+				kind, why := "", ""
+				switch {
+				case last == nil:
+					why = "an error is returned unconditionally"
+				case isTypeTest(last.Args[0].V):
+					if !last.Taken && !armTaken {
+						kind = "unsupported type"
+					} else {
+						why = "an error is returned for a type the switch has an arm for, without any further test"
+					}
+				default:
+					cond, neg := last.Args[0].V, false
+					if u, ok := cond.(*ssa.UnOp); ok && u.Op == token.NOT {
+						cond, neg = u.X, true
+					}
+					if call, ok := cond.(*ssa.Call); ok {
+						switch calleeName(&call.Call) {
+						case "unicode/utf8.ValidString", "unicode/utf8.Valid":
+							if last.Taken == neg {
+								kind = "invalid UTF-8"
+							} else {
+								why = "an error is returned for a string the validity predicate accepted"
+							}
+						default:
+							why = "the refusal is decided by " + calleeName(&call.Call)
+						}
+					} else if b, ok := cond.(*ssa.BinOp); ok && (b.Op == token.NEQ || b.Op == token.EQL) && (isNilConst(b.X) || isNilConst(b.Y)) {
+						x := b.X
+						if isNilConst(x) {
+							x = b.Y
+						}
+						x = e.Resolve(newState(), RV{last.F, x}).V
+						if ex, ok := x.(*ssa.Extract); ok {
+							if call, ok := ex.Tuple.(*ssa.Call); ok && types.TypeString(ex.Type(), nil) == "error" {
+								g := staticCallee(&call.Call)
+								_, viaParam := call.Call.Value.(*ssa.Parameter)
+								if ((g != nil && (g == from || unit[g])) || (g == nil && viaParam && root != from)) && last.Taken == (b.Op == token.NEQ) {
+									kind = "element refused"
+								}
+							}
+						}
+						if kind == "" {
+							why = "the refusal is decided by " + Expr(cond)
+						}
+					} else {
+						why = "the refusal is decided by " + Expr(cond)
+					}
+				}
+				if kind != "" {
+					kinds[kind]++
+					continue
+				}
+				pos := root.Pos()
+				if last != nil {
+					pos = posOf(last.In)
+				}
+				if !seenBad[pos] {
+					seenBad[pos] = true
+					c.Check(false, "C19.scalar-total", fnName(root), "refusal justified", P.Pos(pos), why)
+				}
+			}
+		}
+		for _, k := range []string{"unsupported type", "invalid UTF-8", "element refused"} {
+			c.Check(kinds[k] > 0, "C19.scalar-total", fnName(from), "refusal analysed: "+k, P.Pos(from.Pos()), fmt.Sprintf("%d error paths", kinds[k]))
+		}
+	} else {
+		c.Unresolved("C19.scalar-total", "value.FromScalar")
 	}
 	c.Rule("C19.scalar-tables", "every oneof kind FromScalar can construct is converted by ToScalar without error; each ToScalar arm returns the getter of its own kind; both functions end in an error default")
 	c.Rule("C19.client-path", "client/gnmi.subscribe builds each subscription path from ygot.StringToPath(pathToString(q)); pathToString escapes the same separator constant it joins with, and writes only into a copy of the query path")
@@ -907,7 +1028,7 @@ func scalarUnit(from *ssa.Function) []*ssa.Function {
 	for i := 0; i < len(unit); i++ {
 		for _, ci := range callsIn(unit[i]) {
 			cal := staticCallee(ci.Common())
-			if cal != nil && cal.Pkg == from.Pkg && len(cal.Blocks) > 0 && !seen[cal] && !isExportedFn(cal) {
+			if cal != nil && pkgPathOf(cal) == pkgPathOf(from) && len(cal.Blocks) > 0 && !seen[cal] && !isExportedFn(cal) {
 				seen[cal] = true
 				unit = append(unit, cal)
 			}
